@@ -11,12 +11,15 @@
 //!   9 r w  add_filter/add_test/add_function  (r = 2*kind + which name, w = closure variant)
 //!   10 r   remove_filter/remove_test/remove_global
 //!   11     clone, continue on the clone   12  clone, continue on the original   13  switch to the other
-//!   14 _ b render_named_str(source b)     15 a b  get_template(a).render(context whose Serialize fails (b=0) / panics)
+//!   14 a b render_named_str(name a | "oneoff", source b)   16 _ b render_str   17 a b template_from_named_str + render
+//!   18 _ b template_from_str + render   19 _ b compile_expression + eval   20 _ b compile_expression_owned + eval
+//!   21 a b template_from_named_str + undeclared_variables   22 c  set_trim_blocks(c&1), set_keep_trailing_newline(c&2)
+//!   15 a b  get_template(a).render(context whose Serialize fails (b=0) / panics)
 //! Output, mode 0: per step `tag val` of the operation, then what each of the 4 names renders
 //! (`tag val` each; on a throw-away clone) in the current environment, then `present` + the same for the
-//! other environment.  mode 1: only the 8 integers of the current environment after the last step.
+//! other environment.  mode 1: only the last step's `tag val` and the 8 integers of the current environment after it.
 //! tag 0 = rendered the integer val; 1 = error of kind val; 2 = nothing to report; 3 = non-integer
-//! output of length val; 4 = the caller's own Serialize impl panicked.
+//! output of length val; 4 = the caller's own Serialize impl panicked; 5 = the integer val/4 with val%4 newlines.
 use minijinja::value::{Serde, Value};
 use minijinja::{Environment, Error, ErrorKind};
 use mjverif::*;
@@ -43,9 +46,25 @@ pub fn src_text(x: i64) -> String {
         3 => format!("{{{{ {}|{} }}}}", v, REG_NAMES[0][which]),
         4 => format!("{{{{ 1 if {} is {} else 0 }}}}", v, REG_NAMES[1][which]),
         5 => format!("{{{{ {}({})|length }}}}", REG_NAMES[2][which], v),
-        6 => format!("{{% for i in [1] %}}{{{{ {} }}}}{{% endfor %}}", p),
-        7 => format!("{{% if true %}}{{{{ {} }}}}{{% endif %}}", p),
+        6 => format!("{{% for i in [1] %}}\n{{{{ {} }}}}{{% endfor %}}", p),
+        7 => format!("{{% if true %}}{{{{ {} }}}}{{% endif %}}\n", p),
         _ => format!("{{{{ {} }}}}", p),
+    }
+}
+
+/// The same source as an expression (for compile_expression).
+pub fn expr_text(x: i64) -> String {
+    let k = x.rem_euclid(8);
+    let p = x.div_euclid(8);
+    let which = p.rem_euclid(2) as usize;
+    let v = p.div_euclid(2);
+    match k {
+        1 => format!("{} +", p),
+        2 => "1 // 0".to_string(),
+        3 => format!("{}|{}", v, REG_NAMES[0][which]),
+        4 => format!("1 if {} is {} else 0", v, REG_NAMES[1][which]),
+        5 => format!("{}({})|length", REG_NAMES[2][which], v),
+        _ => format!("{}", p),
     }
 }
 
@@ -86,11 +105,24 @@ impl Serialize for BadCtx {
 
 pub fn enc(r: Result<String, Error>) -> (i64, i64) {
     match r {
-        Ok(s) => match s.parse::<i64>() {
-            Ok(v) => (0, v),
-            Err(_) => (3, s.len() as i64),
-        },
+        Ok(s) => {
+            // an integer, possibly with up to 3 newline characters around it (whitespace settings)
+            let nl = s.matches('\n').count() as i64;
+            match s.replace('\n', "").parse::<i64>() {
+                Ok(v) if nl == 0 => (0, v),
+                Ok(v) if nl < 4 => (5, v * 4 + nl),
+                _ => (3, s.len() as i64),
+            }
+        }
         Err(e) => (1, err_code(e.kind())),
+    }
+}
+
+pub fn adhoc_name(a: i64) -> &'static str {
+    if (0..4).contains(&a) {
+        NAMES[a as usize]
+    } else {
+        "oneoff"
     }
 }
 
@@ -180,7 +212,35 @@ impl World {
                 }
                 unit
             }
-            14 => enc(self.cur.render_named_str("oneoff", &src_text(b), ctx())),
+            // ad-hoc entry points: a source, and (14, 17, 21) a name that may collide with a stored or
+            // loader-served template (a in 0..4) or not ("oneoff")
+            14 => enc(self.cur.render_named_str(adhoc_name(a), &src_text(b), ctx())),
+            16 => enc(self.cur.render_str(&src_text(b), ctx())),
+            17 => enc(self
+                .cur
+                .template_from_named_str(adhoc_name(a), leak(src_text(b)))
+                .and_then(|t| t.render(ctx()))),
+            18 => enc(self.cur.template_from_str(leak(src_text(b))).and_then(|t| t.render(ctx()))),
+            19 => enc(self
+                .cur
+                .compile_expression(leak(expr_text(b)))
+                .and_then(|e| e.eval(ctx()))
+                .map(|v| v.to_string())),
+            20 => enc(self
+                .cur
+                .compile_expression_owned(expr_text(b))
+                .and_then(|e| e.eval(ctx()))
+                .map(|v| v.to_string())),
+            21 => enc(self
+                .cur
+                .template_from_named_str(adhoc_name(a), leak(src_text(b)))
+                .map(|t| t.undeclared_variables(true).len().to_string())),
+            22 => {
+                let c = a.rem_euclid(4);
+                self.cur.set_trim_blocks(c & 1 != 0);
+                self.cur.set_keep_trailing_newline(c & 2 != 0);
+                unit
+            }
             15 => match self.cur.get_template(name) {
                 Err(e) => (1, err_code(e.kind())),
                 Ok(t) => {
@@ -211,6 +271,8 @@ fn main() {
             let (t, v) = w.step(op, a, b);
             if mode == 1 {
                 if c.i + 3 > c.v.len() {
+                    out.push(t.to_string());
+                    out.push(v.to_string());
                     observe(&w.cur, &mut out);
                 }
                 continue;
